@@ -12,6 +12,12 @@ mod facade {
     pub use shuttle::thread::{spawn, yield_now};
     /// share of waker threads that start only after the poller's first poll
     pub const GATE_PROB: f64 = 0.6;
+    pub fn thread_token() -> u64 {
+        let id = shuttle::thread::current().id();
+        let mut h = std::collections::hash_map::DefaultHasher::new();
+        std::hash::Hash::hash(&id, &mut h);
+        std::hash::Hasher::finish(&h)
+    }
     /// a plain scheduling point (not a yield: PCT must not deprioritise the thread)
     pub fn switch() {
         shuttle::thread::sleep(std::time::Duration::ZERO);
@@ -128,7 +134,7 @@ fn cmd_check(args: &[String]) -> i32 {
     let mode = if prop == "C03" { Mode::Lifetime } else { Mode::Liveness };
     let t0 = Instant::now();
     // silence shuttle's own panic printing: failures are reported below
-    std::panic::set_hook(Box::new(|_| {}));
+    if std::env::var("FB_VERBOSE").is_err() { std::panic::set_hook(Box::new(|_| {})); }
     // portfolio: PCT depth 1..5 is primary, uniform random and URW secondary
     let results: Vec<(String, u64, Result<(), (String, String, usize, usize)>)> = std::thread::scope(|s| {
         let hs: Vec<_> = (0..workers)
@@ -200,14 +206,19 @@ fn cmd_check(args: &[String]) -> i32 {
         if let Err((msg, file, threads, children)) = r {
             // classify: which property does this failure speak about?
             let first = msg.lines().next().unwrap_or("").to_string();
+            let liveness_failure = first.contains("deadlock") || first.contains("exceeded max_steps") || first.contains("C02") || first.contains("C11") || first.contains("C05") || first.contains("C04/C07");
             let about = if first.contains("C03") || first.contains("UnsafeCell") {
                 "C03"
-            } else if first.contains("deadlock") || first.contains("exceeded max_steps") || first.contains("C02") || first.contains("C11") || first.contains("C05") {
+            } else if liveness_failure {
                 "C01"
+            } else if mode == Mode::Lifetime {
+                // an unexplained panic while wakers and collection die in arbitrary order: memory
+                // was corrupted (in this layer a use-after-free is real)
+                "C03"
             } else {
                 "C01"
             };
-            let counts = about == prop || (prop == "C03" && first.contains("UnsafeCell")) || (prop == "C01" && first.contains("UnsafeCell"));
+            let counts = about == prop;
             // keep the schedule with a header so that replay knows the scenario parameters
             let dst = format!("{}/{}-l2-{}-{:016x}.schedule", replays, prop, name, wseed);
             let sched = std::fs::read_to_string(file).unwrap_or_default();
